@@ -1177,3 +1177,14 @@ package zygo
 //@ C09,C15 requires template-code-not-tail: !gen.Tail
 //@ func (*Generator).GenerateSyntaxQuote
 //@ C09,C15 ensures keeps-own-tail: r0 == nil ==> gen.Tail == old(gen.Tail)
+
+// the lexer's look-back: a '-' or '+' directly after a rune that can end an operand
+// (closing bracket, quote, letter, digit, underscore) is the binary operator, never the sign
+// of a literal; after an opening bracket, a separator, an operator or at the start it is a sign
+//@ func canStartSignedNumberAfter
+//@ C06 pure
+//@ C06 nopanic
+// (rune codes: 41 ')'  93 ']'  125 '}'  34 '"'  39 '\''  95 '_'  48-57 digits  97-122, 65-90 letters;
+//  40 '('  91 '['  123 '{'  44 ','  59 ';'  43 '+'  45 '-'  42 '*'  47 '/'  60 '<'  62 '>'  61 '='  32 9 10 blanks)
+//@ C06 ensures after-an-operand-it-is-the-operator: r == 41 || r == 93 || r == 125 || r == 34 || r == 39 || r == 95 || (48 <= r && r <= 57) || (97 <= r && r <= 122) || (65 <= r && r <= 90) ==> !r0
+//@ C06 ensures after-an-opener-or-operator-it-is-a-sign: r == 0 || r == 32 || r == 9 || r == 10 || r == 40 || r == 91 || r == 123 || r == 44 || r == 59 || r == 43 || r == 45 || r == 42 || r == 47 || r == 60 || r == 62 || r == 61 ==> r0
